@@ -12,6 +12,23 @@ def plan(tier):
         for part in parts:
             units.append(dict(name='%s-p%d' % (comp, part), src='C05.cpp', compiler=comp, mode='ndebug', opt='-O0',
                               defines=['VF_TIER=%d' % t, 'VF_PART=%d' % part], shards=2))
+    # elastic_integer op built-in integer (either side)
+    for d in ([3, 8] if not t else [1, 3, 7, 8]):
+        units.append(dict(name='g++-builtin%d' % d, src='C05.cpp', compiler='g++', mode='ndebug', opt='-O0',
+                          defines=['VF_TIER=%d' % t, 'VF_PART=%d' % (2000 + d)], shards=2))
+    # comparisons of elastic_scaled_integers with different exponents/digits/signedness (kernel of C03)
+    cmp_lines = []
+    for (ld, le, rd, re) in [(40, 0, 8, -4), (8, -4, 40, 0), (20, 12, 20, 0), (31, 1, 31, 0), (7, 2, 31, -10), (33, 0, 5, -3), (5, -3, 33, 0)] + ([(63, 0, 8, -1), (15, -8, 48, 4)] if t else []):
+        for (lf, rf) in [('ESS', 'ESS'), ('ESS', 'ESU'), ('ESU', 'ESS'), ('ESU', 'ESU')]:
+            cmp_lines.append('{ using L_ = %s<%d, %d>; using R_ = %s<%d, %d>; prog<L_, R_>(FB, ST); }' % (lf, ld, le, rf, rd, re))
+    for d in (8, 32):
+        for bi in ('i8', 'i32', 'u32', 'i64'):
+            cmp_lines.append('{ using L_ = EU<%d>; using R_ = %s; prog<L_, R_>(FB, ST); }' % (d, bi))
+            cmp_lines.append('{ using L_ = %s; using R_ = ES<%d>; prog<L_, R_>(FB, ST); }' % (bi, d))
+    import scaledgen as g0
+    for i, text in enumerate(g0.split(cmp_lines, 4 if t else 2)):
+        units.append(dict(name='g++-escmp%d' % i, src='C03.cpp', compiler='g++', mode='ndebug', opt='-O0',
+                          defines=['VF_TIER=%d' % t], gen={'programs.inc': text}, shards=2))
     # elastic_scaled_integer (= scaled_integer<elastic_integer<D>, power<E>>): + - * and unary - through the scaled_integer
     # kernel of C01 with elastic reps whose digits + alignment gap land on the storage boundaries
     import C01
